@@ -61,12 +61,26 @@ func runTimerTrial(id int, seed int64, durMs int) *timerTrial {
 		tr.expected = 1
 	}
 	time.Sleep(time.Duration(durMs)*time.Millisecond*2 + 30*time.Millisecond)
-	obs := r.take()
-	for _, o := range obs {
-		if strings.HasPrefix(o, "CB:") {
-			tr.delivered++
+	count := func(obs []string) int {
+		n := 0
+		for _, o := range obs {
+			if strings.HasPrefix(o, "CB:") {
+				n++
+			}
 		}
+		return n
 	}
+	obs := r.take()
+	if tr.expected == 1 && count(obs) == 0 {
+		// a loaded machine may run the timer goroutine late: give the legitimate expiry time
+		for i := 0; i < 400 && count(obs) == 0; i++ {
+			time.Sleep(10 * time.Millisecond)
+			obs = append(obs, r.take()...)
+		}
+		time.Sleep(5 * time.Millisecond)
+		obs = append(obs, r.take()...)
+	}
+	tr.delivered = count(obs)
 	tr.states = strings.Join(obs, " ")
 	tr.ok = tr.delivered == tr.expected
 	_, running, _, _, _ := conn.VerifSnapshot()
